@@ -193,6 +193,8 @@ def main(argv=None):
     for k in known_entries:
         if known_seen.get(k["key"]):
             print(f"KNOWN-FINDING: property={prop} {k['key']}: {k['what']} (hits={known_seen[k['key']]})")
+    for key, what, rel in violations:
+        print(f"  {key}: {what}")
     if harness_errors:
         for h in harness_errors:
             print("HARNESS-ERROR " + h)
@@ -205,7 +207,6 @@ def main(argv=None):
         return core.EXIT_HARNESS
     if violations:
         for key, what, rel in violations:
-            print(f"  {key}: {what}")
             print(f"VIOLATION property={prop} replay={rel}")
         return core.EXIT_VIOLATION
     return core.EXIT_OK
